@@ -58,10 +58,23 @@ src_octet(void *driver, void *data)
     return 1;
 }
 
+/* a sink that is busy once: the busy_at-th call from now answers -EAGAIN / -EINTR and takes nothing */
+static long busy_at = -1;
+static int busy_err = EAGAIN;
+
+static bool
+busy_now(void)
+{
+    if (busy_at < 0) return false;
+    if (busy_at-- == 0) return true;
+    return false;
+}
+
 static int
 snk_octet(void *driver, unsigned char c)
 {
     (void)driver;
+    if (busy_now()) return -busy_err;
     if (room == 0) return -fullerr;
     if (nout == outcap) { outcap = outcap ? outcap * 2 : 256; out = realloc(out, outcap); }
     out[nout++] = c;
@@ -76,6 +89,7 @@ static ssize_t
 snk_chunk(void *driver, const void *buf, size_t n)
 {
     (void)driver;
+    if (busy_now()) return -busy_err;
     if (room == 0) return -fullerr;
     size_t k = n;
     if (trickle && k > trickle) k = trickle;
@@ -329,6 +343,12 @@ harness_op(int argc, char **argv)
         else if (strncmp(argv[1], "chunk:", 6) == 0) { trickle = parse_u64(argv[1] + 6); chunk_sink_init(&snk, snk_chunk, NULL); }
         else { printf("bad-op"); return; }
         p.ep.sink = snk;
+        printf("ok");
+    } else if (strcmp(op, "rp.sinkbusy") == 0 && argc == 3) {
+        int e = errbyname(argv[2]);
+        if (!e) { printf("bad-op"); return; }
+        busy_at = strcmp(argv[1], "never") == 0 ? -1 : (long)parse_u64(argv[1]);
+        busy_err = e;
         printf("ok");
     } else if (strcmp(op, "rp.sink") == 0 && argc == 3) {
         int e = errbyname(argv[2]);
